@@ -1117,3 +1117,7 @@ func ruleC09PipeString(c *Ctx) {
 	}
 	c.Check(len(why) == 0, "c09.pipe-string", "Reader/{k|string}", c.P.Pos(f.Pos()), "NULL stays NULL; numbers through FormatFloat('f', -1)", strings.Join(uniq(why), "; "))
 }
+
+
+// a parse that an evaluation can change makes the next evaluation of the same query differ (C12)
+func init() { register("C12", ruleC09ParsedImmutable) }
